@@ -109,6 +109,9 @@ fn ev_kind(expected: &[Ev], got: &[Ev]) -> &'static str {
 pub enum WEOp {
     Do(Op),
     Subscribe,
+    /// arm a single I/O fault sel(x, 14) storage operations from now: the call that hits it fails
+    /// and must emit nothing (the history ends there)
+    Fault(u16),
 }
 
 pub fn wevents_strategy() -> impl Strategy<Value = Vec<WEOp>> {
@@ -122,6 +125,7 @@ pub fn wevents_strategy() -> impl Strategy<Value = Vec<WEOp>> {
         1 => Just(WEOp::Do(Op::Reopen)),
         1 => Just(WEOp::Do(Op::MakeReadOnly)),
         3 => Just(WEOp::Subscribe),
+        1 => any::<u16>().prop_map(WEOp::Fault),
     ];
     prop::collection::vec(op, 1..40)
 }
@@ -133,10 +137,19 @@ pub fn run_writer(ops: &[WEOp], local: &mut Local) -> Check {
     let mut became_held: BTreeSet<u64> = BTreeSet::new();
     let mut noop_calls = 0;
     let mut multi_batch = false;
+    let mut fault_armed = false;
+    let mut faulted_with_subscribers = false;
     for (k, weop) in ops.iter().enumerate() {
         let op = match weop {
             WEOp::Subscribe => {
                 subs.subscribe(sim.core());
+                continue;
+            }
+            WEOp::Fault(x) => {
+                if !fault_armed {
+                    disk.set_fault((disk.ops() + sel(*x, 14)) as i64);
+                    fault_armed = true;
+                }
                 continue;
             }
             WEOp::Do(op) => op,
@@ -145,6 +158,17 @@ pub fn run_writer(ops: &[WEOp], local: &mut Local) -> Check {
         let old_len = sim.model.len();
         let writeable = sim.model.writeable;
         let out = sim.exec(op)?;
+        if disk.fault_hit() {
+            // an injected storage error: if the call failed it must have emitted nothing
+            if matches!(out, Out::Err(_)) {
+                local.class("writer_calls_failed_by_injected_fault");
+                if !subs.rxs.is_empty() {
+                    faulted_with_subscribers = true;
+                }
+                subs.expect(&[], &format!("{ctxt} (failed with an injected I/O error)"))?;
+            }
+            break;
+        }
         // expected events
         let expected: Option<Vec<Ev>> = match (op, &out) {
             (Op::Append(_), Out::Appended { .. }) => Some(vec![Ev::Upgrade, Ev::Have(old_len, 1, false)]),
@@ -206,7 +230,7 @@ pub fn run_writer(ops: &[WEOp], local: &mut Local) -> Check {
     if subs.rxs.len() >= 2 {
         local.class("with_two_or_more_subscribers");
     }
-    if subs.rxs.len() >= 2 && multi_batch && noop_calls > 0 {
+    if (subs.rxs.len() >= 2 && multi_batch && noop_calls > 0) || faulted_with_subscribers {
         local.nontrivial(&ops);
     }
     Ok(())
@@ -222,6 +246,10 @@ pub enum REOp {
     Get(u16),
     /// a proof with another fork
     WrongFork(Req),
+    /// apply an earlier accepted honest proof once more (selector over the proofs accepted so far)
+    Replay(u16),
+    /// arm a single I/O fault on the replica's storage sel(x, 14) operations from now
+    Fault(u16),
 }
 
 pub fn revents_strategy() -> impl Strategy<Value = Vec<REOp>> {
@@ -231,6 +259,8 @@ pub fn revents_strategy() -> impl Strategy<Value = Vec<REOp>> {
         4 => (req_strategy(), prop::collection::vec(any::<u16>(), 1..3)).prop_map(|(r, a)| REOp::Altered(r, a)),
         4 => any::<u16>().prop_map(REOp::Get),
         1 => req_strategy().prop_map(REOp::WrongFork),
+        3 => any::<u16>().prop_map(REOp::Replay),
+        1 => any::<u16>().prop_map(REOp::Fault),
     ];
     (prop::collection::vec(op, 3..40), 0usize..3).prop_map(|(mut v, early)| {
         // usually subscribe early so that the whole history is observed
@@ -250,9 +280,59 @@ pub fn run_replica(ops: &[REOp], local: &mut Local) -> Check {
     let mut subscribed_from_start = true;
     let mut accepted = 0;
     let mut refused = 0;
+    let mut history: Vec<hypercore::Proof> = vec![];
+    let mut fault_armed = false;
     for (k, reop) in ops.iter().enumerate() {
         let ctxt = format!("replica step {k} {reop:?}");
+        if sim.rdisk.fault_hit() {
+            break;
+        }
         match reop {
+            REOp::Fault(x) => {
+                if !fault_armed {
+                    sim.rdisk.set_fault((sim.rdisk.ops() + sel(*x, 14)) as i64);
+                    fault_armed = true;
+                }
+            }
+            REOp::Replay(x) => {
+                if history.is_empty() {
+                    continue;
+                }
+                let p = history[sel(*x, history.len() as u64) as usize].clone();
+                let wl = sim.wlen();
+                let r = sim.replica();
+                let before_held: BTreeSet<u64> = (0..wl + 2).filter(|i| r.has(*i)).collect();
+                let res = catch(|| block_on(r.verify_and_apply_proof(&p))).map_err(|e| panic_failure(&ctxt, &e))?;
+                match res {
+                    Ok(true) => {
+                        local.class("replayed_proof_accepted");
+                        let mut exp = vec![];
+                        if p.upgrade.is_some() {
+                            exp.push(Ev::Upgrade);
+                        }
+                        if let Some(b) = &p.block {
+                            exp.push(Ev::Have(b.index, 1, false));
+                            if !before_held.contains(&b.index) {
+                                became_held.insert(b.index);
+                            }
+                            // a block announced again was available before: count it as available
+                            became_held.insert(b.index);
+                        }
+                        subs.expect(&exp, &ctxt)?;
+                        let r = sim.replica();
+                        let info = r.info();
+                        let now: BTreeSet<u64> = (0..wl + 2).filter(|i| r.has(*i)).collect();
+                        sim.rm.length = info.length;
+                        sim.rm.byte_length = info.byte_length;
+                        sim.rm.held = now;
+                        accepted += 1;
+                    }
+                    Ok(false) | Err(_) => {
+                        refused += 1;
+                        subs.expect(&[], &ctxt)?;
+                    }
+                }
+            }
             REOp::Subscribe => {
                 if subs.rxs.is_empty() && sim.accepted > 0 {
                     subscribed_from_start = false;
@@ -296,6 +376,9 @@ pub fn run_replica(ops: &[REOp], local: &mut Local) -> Check {
                 match res {
                     Ok(true) => {
                         accepted += 1;
+                        if matches!(reop, REOp::S(_)) {
+                            history.push(p.clone());
+                        }
                         let mut exp = vec![];
                         if p.upgrade.is_some() {
                             exp.push(Ev::Upgrade);
@@ -326,6 +409,10 @@ pub fn run_replica(ops: &[REOp], local: &mut Local) -> Check {
             }
             REOp::S(SOp::RReopen) => {
                 sim.replica_reopen()?;
+                if sim.rdisk.fault_hit() {
+                    // the injected fault made open fail: there is no instance any more
+                    break;
+                }
                 let r = sim.r.as_ref().unwrap();
                 subs.resubscribe(r);
             }
